@@ -100,6 +100,10 @@ func runLate(c *sup.Child, b sup.Batch) {
 			runSandboxFail(c, idx)
 			continue
 		}
+		if idx%6 == 1 {
+			runFirsts(c, idx)
+			continue
+		}
 		rng := c.Rand(idx)
 		l := &lateRun{gate: make(chan struct{}), lateFails: rng.Intn(2) == 0, work: 1 + rng.Intn(40)}
 		desc := map[string]any{"kind": "late", "late_task_fails": l.lateFails, "work_rounds": l.work}
